@@ -264,7 +264,7 @@ def rich_models(draw, max_bodies=4, assets=True, defaults=True, frames=True, rep
         labels.add('gravcomp')
       if 'nuser_body' in nuser and draw(st.booleans()):
         b.set('user', fmt([draw(num(-5, 5, 1)) for _ in range(nuser['nuser_body'])]))
-    for j in root.iter('joint'):
+    for j in world.iter('joint'):
       if j.get('joint') is None and 'nuser_jnt' in nuser and draw(st.booleans()) and j.get('name'):
         j.set('user', fmt([draw(num(-5, 5, 1)) for _ in range(nuser['nuser_jnt'])]))
 
